@@ -10,6 +10,8 @@ from bcv.gen import genes as GG
 from bcv.gen import loc as G
 
 PARENT_MODES = ("none", "chrom", "chrom-noseq", "chunk")
+# parents that are neither chromosomes nor chunks (fixed edge objects only)
+ODD_PARENT_MODES = ("bare-id", "plasmid-seq")
 
 
 # ---------------------------------------------------------------------------------------------------------------
@@ -88,6 +90,9 @@ EDGE_TX = [
     ("noncoding", {"exons": [[2, 10], [12, 24]], "strand": "-", "cds": None, "frames": None}),
     ("single-base-exon", {"exons": [[7, 8]], "strand": "+", "cds": None, "frames": None}),
     ("exon-at-chromosome-end", {"exons": [[0, 4], [36, 40]], "strand": "+", "cds": [[1, 4], [36, 39]], "frames": [0, 0]}),
+    ("overlapping-cds-blocks", {"exons": [[2, 30]], "strand": "+", "cds": [[3, 12], [10, 22]], "frames": [0, 2]}),
+    ("overlapping-cds-blocks-minus", {"exons": [[2, 30]], "strand": "-", "cds": [[3, 12], [10, 22]], "frames": [1, 0]}),
+    ("unstranded-noncoding", {"exons": [[2, 10], [12, 24]], "strand": ".", "cds": None, "frames": None}),
 ]
 
 
@@ -120,7 +125,7 @@ def object_cases(rng, n_random, exhaustive_small=True):
     windows = {"cover": [0, 40], "cut": [5, 14], "miss": [26, 34], "one-base": [5, 6]}
     for tag, t in EDGE_TX:
         t = _tx_defaults(t)
-        for pm in PARENT_MODES:
+        for pm in PARENT_MODES + ODD_PARENT_MODES:
             for wname, w in (windows.items() if pm == "chunk" else [("-", None)]):
                 ps = {"mode": pm, "genome": g40, "seqname": "chr1"}
                 if w:
@@ -132,10 +137,11 @@ def object_cases(rng, n_random, exhaustive_small=True):
                 yield dict(base, cls="gene", spec={"transcripts": [t], "gene_id": "g", "gene_symbol": "gs", "gene_type": None, "locus_tag": None,
                                                    "qualifiers": {}, "guid": None}, aseed=rng.randrange(1 << 30))
     feats = [("one-block", {"blocks": [[3, 9]], "strand": "+"}), ("two-blocks-minus", {"blocks": [[3, 9], [12, 18]], "strand": "-"}),
-             ("one-base", {"blocks": [[39, 40]], "strand": "+"}), ("adjacent", {"blocks": [[3, 9], [9, 12]], "strand": "+"})]
+             ("one-base", {"blocks": [[39, 40]], "strand": "+"}), ("adjacent", {"blocks": [[3, 9], [9, 12]], "strand": "+"}),
+             ("unstranded", {"blocks": [[3, 9], [12, 18]], "strand": "."}), ("overlapping-blocks", {"blocks": [[3, 12], [9, 18]], "strand": "-"})]
     for tag, f in feats:
         f = dict({"feature_types": ["promoter"], "feature_name": "fn", "feature_id": "fid", "is_primary_feature": None, "qualifiers": {}, "guid": None}, **f)
-        for pm in PARENT_MODES:
+        for pm in PARENT_MODES + ODD_PARENT_MODES:
             for wname, w in (windows.items() if pm == "chunk" else [("-", None)]):
                 ps = {"mode": pm, "genome": g40, "seqname": "chr1"}
                 if w:
@@ -250,6 +256,17 @@ def _loc_parent(ps):
     raise ValueError(mode)
 
 
+def _gene_parent(ps):
+    from inscripta.biocantor.parent import Parent
+    from inscripta.biocantor.sequence import Alphabet, Sequence
+
+    if ps and ps.get("mode") == "bare-id":
+        return Parent(id=ps["seqname"])
+    if ps and ps.get("mode") == "plasmid-seq":
+        return Parent(id=ps["seqname"], sequence=Sequence(ps["genome"], Alphabet.NT_EXTENDED_GAPPED, type="plasmid"))
+    return GG.build_parent(ps)
+
+
 def build_sequence(spec):
     from inscripta.biocantor.location.location_impl import SingleInterval, CompoundInterval
     from inscripta.biocantor.location.strand import Strand
@@ -341,7 +358,7 @@ def build(case):
         return build_sequence(spec), fr
     if cls == "parent":
         return build_parent_object(spec), fr
-    par = GG.build_parent(ps)
+    par = _gene_parent(ps)
     seqname = ps.get("seqname") if ps else None
     fr["glen"] = len(ps["genome"]) if ps and ps.get("genome") else None
     if cls == "cds":
